@@ -422,7 +422,15 @@ const UNI: [&str; 28] = [
 
 pub fn unicode_text(rng: &mut Rng, items: usize) -> String {
     let mut s = String::new();
+    // now and then the things editors and tools do to files: a byte-order mark in front, a form
+    // feed / vertical tab / NBSP / line separator inside (none of them an LSP line terminator)
+    if rng.chance(80) {
+        s.push('\u{feff}');
+    }
     for _ in 0..items {
+        if rng.chance(15) {
+            s.push(*rng.pick(&['\u{c}', '\u{b}', '\u{a0}', '\u{2028}', '\u{85}', '\u{feff}']));
+        }
         s.push_str(*rng.pick(&UNI));
     }
     s
